@@ -428,6 +428,18 @@ def sequences(rng, n):
         # every member odd at once, and the session id used on a second server's dispatcher as well (unknown there)
         params = {"protocolVersion": v, "clientInfo": v, "capabilities": v}
         out.append({"seq": [dict(mk("initialize", 1, params))] + [dict(mk(*f), sid="$last", advance=1) for f in matrix], "debug": True})
+    # a notification that NAMES a request id (cancelled / progress), before, between and after requests carrying that very id:
+    # every one of those requests is answered exactly like alone
+    for rid in (7, "r", 0, "", "7"):
+        for note in (("notifications/cancelled", {"requestId": rid, "reason": "late"}), ("notifications/progress", {"progressToken": rid, "progress": 1}),
+                     ("notifications/message", {"requestId": rid})):
+            for target in (("tools/call", {"name": "echo"}), ("tools/call", {"name": "boom"}), ("resources/read", {"uri": "file:///ok"}),
+                           ("tools/list", {}), ("custom/answers", {})):
+                for sid in (None, "$last"):
+                    out.append({"seq": [dict(mk("initialize", "i", {"clientInfo": {"name": "c"}})), dict(mk(note[0], "<absent>", note[1]), sid=sid),
+                                        dict(mk("ping", rid, "<absent>"), sid=sid), dict(mk(target[0], rid, target[1]), sid=sid),
+                                        dict(mk(note[0], "<absent>", note[1]), sid=sid), dict(mk(target[0], rid, target[1]), sid=sid),
+                                        dict(mk(target[0], rid, target[1]), sid=sid)]})
     # growth: the 600th message of a session, a table of sessions that only grows
     long_seq = [dict(mk(*init))]
     for k in range(600):
